@@ -161,7 +161,7 @@ Definition spec_ok_with (hb : ascii -> bool) (c : case) : bool :=
 (* the specification: hostname labels are LDH *)
 Definition spec_ok := spec_ok_with ldh.
 (* finding c10_underscore_hostname (fox.go:784, `|| c == '_'`): a case is attributed to it
-   when it fails the specification but satisfies the same specification with '_' admitted
+   when it fails the specification but satisfies the same specification with '_' allowed
    in hostname labels (the language parseRoute is proved to accept, Props_C10.parseRoute_accepts_exactly) *)
 Definition known_underscore (c : case) : bool :=
   match c with
@@ -178,13 +178,27 @@ Definition out_of_fuel (c : case) : bool :=
   | CBlock prefix lo hi _ _ => snd (block_digests prefix lo hi)
   end.
 
-(* evaluated once per case by the case files *)
+(* evaluated once per case by the case files: the model is run once per (case, limit pair) *)
+Definition has_none {A} (l : list (option A)) : bool := existsb (fun o => match o with None => true | _ => false end) l.
+Definition model_res (c : case) : bool * bool :=      (* (agrees, out of fuel) *)
+  match c with
+  | CPat p o agree =>
+    let ms := map (fun l => model_obs (fst l) (snd l) p) limit_pairs in
+    (agree && list_eqb (opt_eqb obs_eqb) ms (map Some (expand o)), has_none ms)
+  | CPat1 mp mk p o agree =>
+    let m := model_obs (N.to_nat mp) (N.to_nat mk) p in
+    (agree && opt_eqb obs_eqb m (Some o), match m with None => true | _ => false end)
+  | _ => (model_agrees c, out_of_fuel c)
+  end.
 Definition verdict (c : case) : bool * bool * bool * bool :=   (* (mismatch, violation, out of fuel, known) *)
   match c with
   | CBlock prefix lo hi dfull derased =>
     let '(hm, hs, oof) := block_digests prefix lo hi in
     (negb (N.eqb hm dfull), negb (N.eqb hs derased), oof, false)
-  | _ => (negb (model_agrees c), negb (spec_ok c), out_of_fuel c, known_underscore c)
+  | _ =>
+    let '(agrees, oof) := model_res c in
+    let v := negb (spec_ok c) in
+    (negb agrees, v, oof, if v then spec_ok_with ldh_or_underscore c else false)
   end.
 Definition verdicts (cs : list case) : list (bool * bool * bool * bool) := map verdict cs.
 Definition mismatches (vs : list (bool * bool * bool * bool)) : list nat := true_idx (map (fun v => fst (fst (fst v))) vs).
